@@ -253,7 +253,7 @@ PROPS = {
   'model_name': 'Model/Encoder.v (shared with C12)',
   'rule': 'cases = random configurations (incl. zero and 2^32-1 dimensions) x arbitrary histories (fewer / exact / more images than declared, illegal setter arguments, stream writers with buffer sizes 0..4096, owned stream writers stopping '
           'mid-frame, raw/text chunks) x validation on/off x finish or drop x the sink failing at EVERY call index of the history (sampled above 48 calls; all thorough), once and permanently, with and without short writes. Rules: no panic; '
-          'at most one IEND in the accepted bytes; finish Ok (sink never failed, or no earlier error) => complete chunk stream ending in one IEND; with validation, image count = declared; plus 60 (600) streaming histories x fail-once at every sink call with the caller retrying the failed write/flush: failure at a chunk boundary + all retries Ok + finish Ok => validator accepts and the crate decodes the pixels written. distinct = (frames, validation, history length, failure plan).',
+          'at most one IEND in the accepted bytes; finish Ok (sink never failed, or no earlier error) => complete chunk stream ending in one IEND; with validation, image count = declared; plus 60 (600) streaming histories x fail-once at every sink call with the caller retrying the failed write/flush: failure at a chunk boundary + all retries Ok + finish Ok => validator accepts and the crate decodes the pixels written; plus 40 (300) animated encoders with all frames streamed through one (borrowed or owned) stream writer x sink failing at every call (once / permanently) with the caller simply continuing to write, flush and finish after every Err: no panic. distinct = (frames, validation, history length, failure plan).',
   'trusted_base': ['fault enumeration harness (exploration/fault_enumeration, not proof)'],
   'assumptions': ['"finish Ok => complete" is checked for every history in which the sink never failed (parameter errors of earlier calls do not excuse anything), for histories whose transient sink failure hit at a chunk boundary and was retried by the caller, and for histories without any earlier Err; it is NOT demanded when a sink failure tore a chunk (bytes of a chunk accepted, then the error) or was not retried: no later call can repair that stream'],
  },
